@@ -133,6 +133,37 @@ case: ifP => Hle; last by case=> <- <-; exists best, rest; split=> //=; rewrite 
 by case: ifP => Hth [<- <-]; exists best, rest; split=> //=; rewrite ?Hle ?Hth //; case: (best).
 Qed.
 
+(* ---- the scalar slice of StrategyActiveOnePlusLambda._rank1update ---- *)
+Lemma gen_active_rank1_scalar_eq (P : aparams (T:=R)) psucc sigma p_succ :
+  gen_active_rank1_scalar RO P psucc sigma p_succ = active_rank1_scalar RO P psucc sigma p_succ.
+Proof.
+rewrite /gen_active_rank1_scalar /active_rank1_scalar; cbv zeta.
+first [ reflexivity | rewrite /psucc_step; congr (_, _); rnorm; req ].
+Qed.
+
+(* the hand-written slice is the projection of the model's _rank1update *)
+Lemma active_rank1_scalar_spec (P : aparams (T:=R)) st ind p_succ :
+  (as_psucc (rank1update RO P st ind p_succ), as_sigma (rank1update RO P st ind p_succ)) =
+  active_rank1_scalar RO P (as_psucc st) (as_sigma st) p_succ.
+Proof.
+rewrite /rank1update /active_rank1_scalar; cbv zeta.
+by do ![case: ifP => _ //=].
+Qed.
+
+Lemma gen_active_rank1_scalar_spec (P : aparams (T:=R)) st ind p_succ :
+  (as_psucc (rank1update RO P st ind p_succ), as_sigma (rank1update RO P st ind p_succ)) =
+  gen_active_rank1_scalar RO P (as_psucc st) (as_sigma st) p_succ.
+Proof. by rewrite gen_active_rank1_scalar_eq; exact: active_rank1_scalar_spec. Qed.
+
+Lemma gen_active_rank1_scalar_range (P : aparams (T:=R)) psucc sigma p_succ :
+  (forall x, 0 < exp_ x) -> 0 <= ap_cp P <= 1 -> 0 <= p_succ <= 1 -> 0 <= psucc <= 1 -> 0 < sigma ->
+  0 <= (gen_active_rank1_scalar RO P psucc sigma p_succ).1 <= 1 /\
+  0 < (gen_active_rank1_scalar RO P psucc sigma p_succ).2.
+Proof.
+move=> exp_pos cp q ps s0; rewrite gen_active_rank1_scalar_eq /active_rank1_scalar /psucc_step c1E /=.
+by split; [exact: convex01 | rewrite mulr_gt0].
+Qed.
+
 (* ---- C14 theorems restated on the regenerated definitions ---- *)
 Lemma gen_plain_defaults_ok dim lam : (0 < lam)%nat ->
   let P := gen_plain_computeParams RO dim lam in
